@@ -48,7 +48,12 @@ CHECKS += [
              "of the i-th individual check, rho_1 = 1 and rho_(i+1) is the i-th verifier draw (one draw per claim); all-true batches accept for every "
              "randomness; one false claim with non-zero randomizer rejects; length mismatches are refused. Correspondence: model vs library on true, "
              "one-false, cancelling, short, long, permuted, duplicated and empty batches, with the verifier's RNG replayed as the model's tape.",
-     "note": COMMON_NOTE + " Modelled batch verifiers: KZG10::batch_check, MarlinKZG10::batch_check (grouping + accumulate + KZG10 batch)." + GENERIC},
+     "note": COMMON_NOTE + " Modelled batch verifiers: KZG10::batch_check, MarlinKZG10::batch_check (grouping + accumulate + KZG10 batch); the trait's default "
+             "batch_open/batch_check as a generic Coq function of the scheme's own open/check (theorem: verdict = conjunction of the group verdicts in "
+             "order on the shared transcript; wrong proof count aborts), instantiated with Hyrax; IPA's own batch_check (theorem: accepts for any "
+             "randomizers when every group passes, for proofs whose final key matches their check polynomial) and PST13's own batch_check "
+             "(theorem: residual = randomizer-weighted sum of the single-point residuals), both with the default batch_open. All their batch "
+             "flows and batch mutations are compared with the library." + GENERIC},
     {"property_id": "C10",
      "text": "Coq theorems: the KZG10 check as coded accepts iff e(C - vG - rv*gammaG, H) = e(W, betaH - zH); honest proofs satisfy it; every "
              "component (value, point, commitment, witness, blinding value, vk.g, vk.beta_h) moves the residual by an explicit term; the Marlin check "
@@ -94,7 +99,10 @@ CHECKS += [
              "per point, shared point values) and on perturbed claims / coefficients / constants (decisions compared).",
      "note": COMMON_NOTE + " Completeness of the combination opening itself reduces, by C06_combination_is_honest_commitment, to completeness of the "
              "batch opening of honest commitments (C01); the grouping step of batch_open/batch_check is modelled and compared but its completeness "
-             "is not yet a theorem. Sonic, IPA, PST13 (override paths) and Hyrax, Ligero, Brakedown (default path) are exercised by the same "
+             "is not yet a theorem. The trait's default open_combinations/check_combinations is modelled once, generically in the scheme "
+             "(theorem C06_default_check_combinations_every_claim: every equation at every one of its points is checked against the transmitted "
+             "evaluations and the default batch check runs on exactly those), and instantiated with Hyrax, whose combination flows are compared. "
+             "Sonic, IPA, PST13 (override paths) and Ligero, Brakedown (default path at the trait level) are exercised by the same "
              "scenarios and judged by implementation-level oracles (supporting search)."},
     {"property_id": "C11",
      "text": "Coq theorems (sponge modelled as the tape of its outputs): for histories of any length of multi-polynomial openings the verifier accepts "
